@@ -33,7 +33,20 @@ SPEC = {
              "the documentation does not settle, is never generated and checked for at run time). One request in four is answered with "
              "bodies padded by 300 / 1500 / 2500 / 5000 bytes. In 65 % of the cases the target sends part of its answers (a drawn periodic "
              "pattern over the request number) WITHOUT Content-Length, flushed in two pieces at a drawn offset (chunked transfer "
-             "encoding); all other answers carry Content-Length, also beyond Go's 2 KiB write buffer. The description is "
+             "encoding); all other answers carry Content-Length, also beyond Go's 2 KiB write buffer. The method of a request is GET / POST / "
+             "PUT / DELETE or - added after seeded defect C15/m13, 13 % of the requests - HEAD: the target answers a HEAD step as net/http "
+             "servers do, status line and headers and NO body, with the Content-Length of the body the same request would get under GET "
+             "where that answer carries Content-Length and without any where it would be chunked; a HEAD step has no postprocessors (three "
+             "in ten), or var/header and assert/response on status, headers and `size` (the body has 0 bytes: `<` 40.. and `= 0` "
+             "hold, `>` 40.. and `=` another size fail) - what var/jsonpath, var/xpath and body patterns make of an absent body the "
+             "documentation does not say; such a step passes, leaves a sample with the status of the answer, and the later steps run. In "
+             "25 % of the cases the gun's answer log is on (`answlog: {enabled: true, filter: all}`, written to /dev/null), so the gun reads "
+             "the body of every answer, also of steps without postprocessors. Added after seeded defect C15/m14: in 60 % of the programs in "
+             "which several scenarios list the same request, one such request gets a data source of its own (2-5 rows) that its "
+             "preprocessor indexes with [next] - the common first action of different kinds of users that takes the next user: over all "
+             "its executions, whichever scenario (and instance) runs it, it must get rows 0,1,2,... mod R (one counter in the reference "
+             "interpreter for a request listed by several scenarios; in TestNextAcrossInstances this request refers to no other step and "
+             "no step refers to it, so that the multiset of requests does not depend on which invocation got which row). The description is "
              "rendered to YAML (internal/scengen) and run by the real http/scenario provider + gun + engine (pool built by "
              "config.DecodeAndValidate, recording aggregator) against the in-process recording target, which answers the n-th request "
              "with values unique to n and the generated faults (non-200 status, connection closed without a response, connection dropped "
@@ -74,6 +87,19 @@ SPEC = {
                "TestScenarioExecution/names_join_equally_default_templater_same_header_name": 0.025,
                "TestScenarioExecution/names_join_equally_default_templater_both_body": 0.015,
                "TestNextAcrossInstances/names_join_equally_both_rendered_default_templater": 0.04,
+               # classes added after seeded defect C15/m13 (HEAD step whose absent body the gun reads under an announced Content-Length)
+               "TestScenarioExecution/head_step": 0.12, "TestScenarioExecution/head_step_body_read_content_length_announced": 0.06,
+               "TestScenarioExecution/head_step_with_postprocessors_content_length_announced": 0.05,
+               "TestScenarioExecution/head_step_without_postprocessors_answlog_content_length_announced": 0.004,
+               "TestScenarioExecution/head_step_no_content_length": 0.07,
+               "TestScenarioExecution/step_after_head_step_body_read_content_length_announced": 0.05,
+               "TestScenarioExecution/assert_size_only_head": 0.015, "TestScenarioExecution/answlog_enabled": 0.11,
+               "TestNextAcrossInstances/head_step": 0.13, "TestNextAcrossInstances/answlog_enabled": 0.11,
+               # classes added after seeded defect C15/m14 ([next] in the preprocessor of a request that several scenarios list)
+               "TestScenarioExecution/next_in_request_shared_by_scenarios": 0.03,
+               "TestScenarioExecution/next_in_request_shared_by_scenarios_wrapped": 0.03,
+               "TestNextAcrossInstances/next_in_request_shared_by_scenarios": 0.04,
+               "TestNextAcrossInstances/next_in_request_shared_by_scenarios_instances_ge_2": 0.025,
                "TestNextAcrossInstances/next_wrapped": 0.25, "TestNextAcrossInstances/invocations_interleaved_at_target": 0.2,
                "TestNextAcrossInstances/instances_4": 0.1},
     "manifest": {
@@ -84,17 +110,22 @@ SPEC = {
                  "earlier in the same invocation - by the templates of the step's own request, whatever the scenario and request names are -, every executed step must leave exactly one sample (status of the response, or marked "
                  "failed for the failing step: failed assertion - a `size` assertion is judged on the number of body bytes the target sent, whether they "
                  "came with Content-Length or chunked -, closed connection, response body cut short by a dropped connection - with "
-                 "or without postprocessors on the step -, template or preprocessor that cannot be evaluated), "
+                 "or without postprocessors on the step -, template or preprocessor that cannot be evaluated; a HEAD step answered with headers "
+                 "only - with or without Content-Length - is not a failed step, whether or not the gun reads bodies because of "
+                 "postprocessors or the answer log), "
                  "nothing may be sent after a failed step, pauses (name(n,ms), sleep(ms), min_waiting_time) must separate the "
                  "recorded arrival times by at least their length, the scenario handed to the gun for an invocation must carry after every "
                  "step exactly the pause its own occurrence in the list states (none where none is stated), over whole cycles scenario i must run w_i/gcd times per cycle, and "
-                 "[next] must hand out rows 0,1,2,... mod R per scenario and path (exact sequence with one instance, multiset with 1-4)."),
+                 "[next] must hand out rows 0,1,2,... mod R per scenario and path - to a request that several scenarios list: over all its "
+                 "executions in all of them - (exact sequence with one instance, multiset with 1-4)."),
         "note": ("The html templater, [rand], the randomisation functions, HCL input (C16) and the http2 gun "
                  "are not exercised. Size assertions: only the documented spellings > < = and never a body of exactly val bytes under < or > "
                  "(the documentation does not say whether the comparison is strict). substr is only generated in the forms substr(from) and substr(0,n), where the documentation "
-                 "(from, length) and the implementation (from, end) agree. A [next] path is confined to one scenario and used at most "
-                 "once per preprocessor (the documentation does not settle sharing across scenarios or evaluation order inside one "
-                 "mapping). At the target pauses are only bounded from below by the clock; that no pause is longer than stated (or present "
+                 "(from, length) and the implementation (from, end) agree. A [next] path is confined to one scenario, or to one request "
+                 "that several scenarios list (with a source of its own), and used at most once per preprocessor (the documentation does not "
+                 "settle what two different requests of different scenarios share that index the same source with [next], nor the evaluation "
+                 "order inside one mapping). HEAD steps carry no var/jsonpath, var/xpath or body patterns (an absent body is not settled "
+                 "for them); debug logging, the third reason for the gun to read bodies, is not switched on. At the target pauses are only bounded from below by the clock; that no pause is longer than stated (or present "
                  "where none is stated) is judged on the Sleep / MinWaitingTime fields of the ammo the provider hands to the gun, not by "
                  "timing. A body cut short is produced by closing the connection, not by a client-side timeout. Invocations are told apart by a first step unique to each scenario."),
     },
